@@ -463,7 +463,7 @@ def run_case(case, res):
 
 
 def run(tier, seed, started):
-    N, size, depth = (96, 14, 6) if tier == 'quick' else (300, 24, 10)
+    N, size, depth = (96, 14, 6) if tier == 'quick' else (200, 18, 8)
     cases = [{'kind': 'lists', 'n': n} for n in range(1, N + 1)]
     step = 4096
     cases += [{'kind': 'branch_length', 'lo': lo, 'hi': min(lo + step, 65537)}
